@@ -97,8 +97,11 @@ func Fmt(v any) string {
 		}
 		return "&" + Fmt(rv.Elem().Interface())
 	case reflect.Struct, reflect.Map:
-		b, _ := json.Marshal(v)
-		return string(b)
+		var sb strings.Builder
+		enc := json.NewEncoder(&sb)
+		enc.SetEscapeHTML(false) // the text as sent, not json.Marshal's \u0026 spelling of '&'
+		enc.Encode(v)
+		return strings.TrimRight(sb.String(), "\n")
 	case reflect.Slice:
 		parts := []string{}
 		for i := 0; i < rv.Len(); i++ {
